@@ -201,6 +201,8 @@ class SymbolKindTable:
                         tbl[name] = kind
 
         else:
+            # A newly known kind may widen kinds derived before it was known.
+            self._changed = True
             tbl[name] = kind
 
     def get(self, phase_name, name):
